@@ -281,6 +281,7 @@ class Exec:
         self.stats = {'steps': 0, 'forks': 0, 'pruned': 0, 'inlined': set(), 'modelled': set(), 'stubbed': set()}
         self._prune_solver = None
         self.havoc_unknown = False
+        self.const_hooks = []
         self.from_wrappers = set()    # target types whose derive-generated From impls are modelled as wrappers
         self.no_inline = []           # regexes of callees that must be stubbed / modelled, never inlined
         from . import models
@@ -552,6 +553,10 @@ class Exec:
     # -------------------------------------------------------------- constants
     def constant(self, st, tok):
         tok = tok.strip()
+        for h in self.const_hooks:
+            r = h(tok)
+            if r is not None:
+                return r
         m = re.match(r'^(-?\d+)_(\w+)$', tok)
         if m and m.group(2) in INT_TY:
             return self.const_int(int(m.group(1)), m.group(2))
@@ -585,6 +590,38 @@ class Exec:
         m = re.match(r'^(.*)::(\w+)$', tok)
         if m and re.match(r'^[A-Z]', m.group(2)) and base_type(m.group(1)) in STD_ENUMS and m.group(2) in STD_ENUMS[base_type(m.group(1))]:
             return Agg('variant', m.group(1), m.group(2), [])
+        mp = re.match(r'^(.*)::([\w#{}]+)::promoted\[(\d+)\]$', tok)
+        if mp:
+            suffix = f'::{mp.group(2)}::promoted[{mp.group(3)}]'
+            cands = [k for k in self.prog._const_bodies if k.endswith(suffix) or k == suffix[2:]]
+            if len(cands) > 1:
+                ty = base_type(mp.group(1))
+                keep = []
+                for k in cands:
+                    mi = re.search(r'<impl at ([^>]*?\.rs):(\d+):(\d+): (\d+):(\d+)>', k)
+                    hdr = self.impl_header(mi.group(1), int(mi.group(2))) if mi else None
+                    if hdr and base_type(hdr[1]) == ty:
+                        keep.append(k)
+                cands = keep or cands
+            if len(cands) != 1:
+                raise NotEncoded(f'promoted constant {tok}: {len(cands)} candidates')
+            key = ('const', cands[0])
+            if key not in self.memo:
+                sub = Exec.__new__(Exec)
+                sub.__dict__.update(self.__dict__)
+                outs = sub.run(self.prog.const_body(cands[0]), [])
+                rets = [o for o in outs if o.kind == 'ret' and self.feasible(o.pc)]
+                if len(rets) != 1:
+                    raise NotEncoded(f'promoted constant {tok}: {len(rets)} feasible evaluations')
+                v = rets[0].val
+                # a promoted is a reference into its own frame: copy the referent into the heap of the memo
+                if isinstance(v, Ref):
+                    v = ('ref', sub.read(rets[0].st, v.fid, v.place))
+                self.memo[key] = v
+            v = self.memo[key]
+            if isinstance(v, tuple) and v[0] == 'ref':
+                return self.new_cell(st, v[1], 'promoted')
+            return v
         # named constant of this crate
         last = tok.split('::')[-1]
         if re.match(r'^[A-Z][A-Z0-9_]*$', last):
@@ -636,17 +673,57 @@ class Exec:
             return z3.IntVal(c)
         return ((t + (1 << (w - 1))) % m) - (1 << (w - 1)) if sg else t % m
 
+    def norm(self, t):
+        """value-preserving normal form used to recognise equal operands of divisions: nested `% M` inside a sum that is itself taken
+        `% M` are dropped ((u % M + v) % M == (u + v) % M), then z3's simplifier"""
+        def strip(u, M):
+            if z3.is_app(u):
+                k = u.decl().kind()
+                if k == z3.Z3_OP_MOD and z3.is_int_value(u.arg(1)) and u.arg(1).as_long() == M:
+                    return strip(u.arg(0), M)
+                if k in (z3.Z3_OP_ADD, z3.Z3_OP_SUB, z3.Z3_OP_UMINUS):
+                    args = [strip(c, M) for c in u.children()]
+                    return -args[0] if k == z3.Z3_OP_UMINUS else (sum(args[1:], args[0]) if k == z3.Z3_OP_ADD else args[0] - sum(args[2:], args[1]) if len(args) > 1 else args[0])
+                if k == z3.Z3_OP_MUL and all(z3.is_int_value(c) for c in u.children()[:-1]):
+                    args = u.children()
+                    r = strip(args[-1], M)
+                    for c in args[:-1]:
+                        r = c * r
+                    return r
+            return go(u)
+
+        def go(u):
+            if z3.is_app(u) and u.num_args() > 0:
+                if u.decl().kind() == z3.Z3_OP_MOD and z3.is_int_value(u.arg(1)) and u.arg(1).as_long() > 0:
+                    M = u.arg(1).as_long()
+                    return strip(u.arg(0), M) % M
+                ch = [go(c) for c in u.children()]
+                try:
+                    return u.decl()(*ch)
+                except Exception:
+                    return u
+            return u
+        try:
+            return z3.simplify(go(z3.simplify(t)))
+        except Exception:
+            return z3.simplify(t)
+
     def divrem(self, a, b):
         """truncating quotient and remainder of mathematical integers, as fresh variables + lemma (b != 0 assumed by caller)"""
         ca, cb = (self.concrete(a) if z3.is_int_value(z3.simplify(a)) else None), (self.concrete(b) if z3.is_int_value(z3.simplify(b)) else None)
         if ca is not None and cb is not None and cb != 0:
             q = abs(ca) // abs(cb) * (1 if (ca >= 0) == (cb >= 0) else -1)
             return z3.IntVal(q), z3.IntVal(ca - q * cb)
+        key = ('divrem', self.norm(a).sexpr(), self.norm(b).sexpr())
+        if key in self.memo:
+            return self.memo[key]
         n = next(self.fresh_n)
         q, r = z3.Int(f'q!{n}'), z3.Int(f'r!{n}')
+        self.memo[key] = (q, r)
         absb = z3.If(b < 0, -b, b)
-        self.invariants.append(z3.Implies(b != 0, z3.And(a == q * b + r,
-                                                         z3.If(a >= 0, z3.And(r >= 0, r < absb), z3.And(r <= 0, -r < absb)))))
+        # two separate facts: the (nonlinear) defining equation and the (linear) bounds - queries are first tried with linear facts only
+        self.invariants.append(z3.Implies(b != 0, a == q * b + r))
+        self.invariants.append(z3.Implies(b != 0, z3.If(a >= 0, z3.And(r >= 0, r < absb), z3.And(r <= 0, -r < absb))))
         return q, r
 
     def binop(self, op, a, b):
@@ -1353,6 +1430,14 @@ class Exec:
             if mm and trait is None and base_type(mm.group(1)) == sb:
                 out += [(f, None) for f in prog.funcs_named(name)]
         out = [fs for fs in out if fs[0].blocks]
+        # a `const fn` is dumped twice (runtime MIR and the MIR for compile-time evaluation): same name and signature
+        seen, uniq = set(), []
+        for fs in out:
+            k = (fs[0].name, tuple(fs[0].args))
+            if k not in seen:
+                seen.add(k)
+                uniq.append(fs)
+        out = uniq
         if len(out) > 1 and args is not None:
             out2 = [fs for fs in out if len(fs[0].args) == len(args)]
             out = out2 or out
